@@ -17,7 +17,8 @@ INVARIANT ArgSound
 INVARIANT InterfacesLaw
 INVARIANT NullabilityLaw
 """
-NEGATIVE = {"nullskips": "ArgLaw", "directbases": "InterfacesLaw", "enumdefault": "ArgLaw"}
+NEGATIVE = {"nullskips": "ArgLaw", "directbases": "InterfacesLaw", "enumdefault": "ArgLaw", "ehcatchesargs": "ArgLaw",
+            "infobreak": "ArgLaw"}
 FINDING = "F-gql-enum-default"
 
 HEAD = '''
@@ -304,10 +305,20 @@ def run_setting(rep: common.Report, model: dict, cases: List[dict], st: Setting)
         p = c["p"]
         ns = dict(mod.__dict__, box=box)
         dflt = default_expr(p["def"], False)
-        exec(f"def param_{i}({p['name']}: {type_expr(p['t'])}" + (f" = {dflt}" if dflt is not None else "") + ") -> bool:\n"
+        info_prm = "info: graphql.GraphQLResolveInfo, " if p.get("pos") == "afterinfo" else ""
+        ns["graphql"] = graphql
+        exec(f"def param_{i}({info_prm}{p['name']}: {type_expr(p['t'])}" + (f" = {dflt}" if dflt is not None else "") + ") -> bool:\n"
              f"    box['received'] = {p['name']}\n    return True\n", ns)
         c["_default"] = eval(dflt, ns) if dflt is not None else None
-        ops.append(ns[f"param_{i}"])
+        if p.get("eh", "unset") == "none":
+            ops.append(Query(ns[f"param_{i}"], error_handler=None))
+        elif p.get("eh") == "custom":
+            def handler(error: Exception, obj, info, **kwargs) -> None:
+                box["handled"] = repr(error)
+                return None
+            ops.append(Query(ns[f"param_{i}"], error_handler=handler))
+        else:
+            ops.append(ns[f"param_{i}"])
     classes = [getattr(mod, name) for name, c in model["ct"].items() if c["kind"] != "hidden"]
     try:
         schema = graphql_schema(query=ops, types=classes, **st.kwargs())
@@ -395,7 +406,7 @@ def run_setting(rep: common.Report, model: dict, cases: List[dict], st: Setting)
             res = graphql.graphql_sync(schema, "{ " + call + " }")
             called = "received" in box
             info = dict(info0, p=p, supply=sup, expected=exp, query=call, errors=[str(e) for e in res.errors or []])
-            what = f"{{ {call} }} with parameter {p['name']}: {type_expr(p['t'])}" + \
+            what = f"{{ {call} }} (error_handler {p.get('eh', 'unset')}) with parameter {p['name']}: {type_expr(p['t'])}" + \
                    (f" = {default_expr(p['def'], False)}" if p["def"]["k"] != "req" else "")
             if exp["kind"] == "error":
                 if called or not res.errors:
